@@ -106,7 +106,7 @@ def resolve_key(spec, model_keys_sorted, last=None):
 
 def literal_values(tier):
     edge_lens = st.sampled_from([1, 25, 26, 27, 28, 29, 30, 31, 32, 33, 34, 35, 36])
-    rlp_lens = st.sampled_from([55, 56, 255, 256, 300])
+    rlp_lens = st.sampled_from([55, 56, 255, 256, 300, 55, 56, 255, 256, 300, 1024, 65535, 66000])
     fill = st.sampled_from([b"\x00", b"\x01", b"\x7f", b"\x80", b"\xff", b"v"])
     return st.one_of(
         st.binary(min_size=1, max_size=40),
@@ -145,7 +145,8 @@ def resolve_val(spec, key, prev=None):
 def simple_ops(tier, near_weight=2, sfx_weight=2):
     ks = keyspecs(tier, near_weight)
     vs = valspecs(tier, sfx_weight)
-    syn = st.integers(0, 1)
+    # 0: method, 1: dict syntax, 2/3: the same with HexBytes (a bytes subclass) arguments
+    syn = st.sampled_from([0, 1, 0, 1, 0, 1, 2, 3])
     ex = existing_keyspecs()
     return st.one_of(
         st.tuples(st.just("set"), ks, vs, syn),
